@@ -33,10 +33,16 @@ def r15_checkpoint_rename(ctx, rule='R15'):
     fi0 = stream_func(ctx)
     fi = ctx.N(fi0)          # a finishing helper (`finish()`) is part of the step
     lp = resource_loop_pred(ctx, fi, ['package'])
-    preds = {'RENAME': ext(ctx, 'os.rename', 'os.replace', 'shutil.move'),
+    raw_rename = ext(ctx, 'os.rename', 'os.replace', 'shutil.move')
+    # a helper of the module that performs the rename and could not be inlined (it rebinds a variable of the factory with `nonlocal`,
+    # say): a call to it IS the commit
+    committing = {f.node.name for f in ctx.repo.functions.values() if f.module is fi0.module and f is not fi0
+                  and not isinstance(f.node, ast.Lambda) and any(raw_rename(n) for n in own_nodes(f.node))}
+    preds = {'RENAME': lambda n: raw_rename(n) or (isinstance(n, ast.Call) and isinstance(n.func, ast.Name) and n.func.id in committing),
              'CLOSE': lambda n: isinstance(n, ast.Call) and isinstance(n.func, ast.Attribute) and n.func.attr == 'close'
              and pseudo(n.func.value) == 'file'}
-    pes, problems = check_order(ctx, rule, fi, preds, before=[('CLOSE', 'RENAME')], after_loop=[('RENAME', lp)],
+    direct = any(raw_rename(n) for n in ast.walk(fi.node))
+    pes, problems = check_order(ctx, rule, fi, preds, before=[('CLOSE', 'RENAME')] if direct else [], after_loop=[('RENAME', lp)],
                                 forbid_ctx=['RENAME'])
     n_ren = sum(1 for p, evs in pes for e in evs if e.name == 'RENAME')
     if n_ren == 0:
@@ -47,7 +53,7 @@ def r15_checkpoint_rename(ctx, rule='R15'):
     # a call from the row writer or any other function of the module runs while rows are still being handed downstream
     mod = fi0.module
     funcs = [f for f in ctx.repo.functions.values() if f.module is mod and not isinstance(f.node, ast.Lambda)]
-    reach = {f.qualname for f in funcs if any(preds['RENAME'](n) for n in own_nodes(f.node))}
+    reach = {f.qualname for f in funcs if any(raw_rename(n) for n in own_nodes(f.node))}
     changed = True
     while changed:
         changed = False
@@ -67,7 +73,7 @@ def r15_checkpoint_rename(ctx, rule='R15'):
         if f is fi0 or f.qualname in reach:
             continue
         for n in own_nodes(f.node):
-            hit = preds['RENAME'](n) or (isinstance(n, ast.Call) and
+            hit = raw_rename(n) or (isinstance(n, ast.Call) and
                                          any(getattr(t, 'qualname', None) in reach for t in ctx.res.resolve_call(n)))
             if hit:
                 ctx.run.fail(rule, where(ctx.repo, n), f.qualname, 'commit reached from ' + f.qualname.split(':')[-1],
